@@ -924,7 +924,7 @@ func (f *Frame) pureApply(c *Contract, fn *types.Func, recv Val, args []Val, st 
 	}
 	ai := 0
 	for i := 0; i < sig.Params().Len(); i++ {
-		if ignored[sig.Params().At(i).Name()] {
+		if ignored[sig.Params().At(i).Name()] || ignored[fmt.Sprintf("#%d", i)] {
 			if len(args) == sig.Params().Len() {
 				ai++
 			}
@@ -952,6 +952,19 @@ func (f *Frame) pureApply(c *Contract, fn *types.Func, recv Val, args []Val, st 
 	}
 	in.note("pure method/function (uninterpreted function of receiver and arguments; assumption: it is a side-effect-free, deterministic getter): " + c.Pkg + "." + c.Name)
 	if len(c.Ensures) > 0 {
+		hasBound := false
+		for _, t := range ts {
+			if strings.Contains(t.S, "!q") {
+				hasBound = true
+			}
+		}
+		if hasBound || c.Opts["axiom"] != "" {
+			// the arguments mention bound variables of an enclosing quantifier: the ensures cannot be
+			// assumed as a ground fact; state them once as a universally quantified axiom over the
+			// function symbol instead (pattern: the application itself)
+			f.pureAxiom(c, fn, recv != nil && sig.Recv() != nil, ignored)
+			return res
+		}
 		env := &SpecEnv{in: in, f: f, st: st, old: st, vars: map[string]Val{}, pkgPath: c.Pkg, lets: map[string]SExpr{}}
 		names := in.W.paramNames(c, fn)
 		if names.recv != "" && recv != nil {
@@ -973,6 +986,85 @@ func (f *Frame) pureApply(c *Contract, fn *types.Func, recv Val, args []Val, st 
 		}
 	}
 	return res
+}
+
+// pureAxiom states the ensures of a pure contract as one universally quantified axiom
+// forall params :: ensures(params, uf(params)), triggered by the application.
+func (f *Frame) pureAxiom(c *Contract, fn *types.Func, withRecv bool, ignored map[string]bool) {
+	in := f.in
+	key := "pureax:" + c.Pkg + "." + c.Name
+	if in.pureAxDone == nil {
+		in.pureAxDone = map[string]bool{}
+	}
+	if in.pureAxDone[key] {
+		return
+	}
+	in.pureAxDone[key] = true
+	sig := fn.Type().(*types.Signature)
+	names := in.W.paramNames(c, fn)
+	env := &SpecEnv{in: in, f: f, st: nil, old: nil, vars: map[string]Val{}, pkgPath: c.Pkg, lets: map[string]SExpr{}}
+	st0 := &State{store: map[*Cell]Val{}}
+	env.st, env.old = st0, st0
+	var bvs []Term
+	var sorts []string
+	if withRecv {
+		rt := f.resolve(sig.Recv().Type())
+		bv := Term{S: "pxr!q0", Sort: in.sortOf(rt)}
+		bvs = append(bvs, bv)
+		sorts = append(sorts, bv.Sort)
+		if names.recv != "" {
+			env.vars[names.recv] = in.thaw(bv, rt, f)
+		}
+	}
+	for i := 0; i < sig.Params().Len(); i++ {
+		if ignored[sig.Params().At(i).Name()] || ignored[fmt.Sprintf("#%d", i)] {
+			continue
+		}
+		pt := f.resolve(sig.Params().At(i).Type())
+		bv := Term{S: fmt.Sprintf("px%d!q0", i), Sort: in.sortOf(pt)}
+		bvs = append(bvs, bv)
+		sorts = append(sorts, bv.Sort)
+		if i < len(names.params) && names.params[i] != "" && names.params[i] != "_" {
+			env.vars[names.params[i]] = in.thaw(bv, pt, f)
+		}
+	}
+	var hyps []Term
+	for i := 0; i < sig.Params().Len(); i++ {
+		if ignored[sig.Params().At(i).Name()] || ignored[fmt.Sprintf("#%d", i)] {
+			continue
+		}
+		pt := f.resolve(sig.Params().At(i).Type())
+		if _, _, ok := intRange(pt); ok {
+			hyps = append(hyps, inRange(Term{S: fmt.Sprintf("px%d!q0", i), Sort: SInt}, pt))
+		}
+	}
+	var apps []Term
+	for i := 0; i < sig.Results().Len(); i++ {
+		rt := f.resolve(sig.Results().At(i).Type())
+		rs := in.sortOf(rt)
+		name := fmt.Sprintf("uf_%s_%d", sanitize(c.Pkg+"."+c.Name), i)
+		in.D.declareFun(name, sorts, rs)
+		t := App(name, rs, bvs...)
+		apps = append(apps, t)
+		v := in.thaw(t, rt, f)
+		env.vars[fmt.Sprintf("result%d", i)] = v
+		if sig.Results().Len() == 1 {
+			env.vars["result"] = v
+		}
+	}
+	var body []Term
+	for _, e := range c.Ensures {
+		body = append(body, env.evalBool(e.E))
+	}
+	if len(st0.hyps) > 0 {
+		in.unsupported(token.NoPos, "pure contract %s: ensures with side conditions cannot be stated as an axiom", c.Name)
+	}
+	ax := Implies(And(hyps...), And(body...))
+	if len(bvs) == 0 {
+		in.D.declareOnce(key, fmt.Sprintf("(assert %s)", ax.S))
+		return
+	}
+	in.D.declareOnce(key, fmt.Sprintf("(assert %s)", Forall(bvs, ax, apps[:1]).S))
 }
 
 // ufRangeAxiom: results of an uninterpreted function of integer type stay in the type's range.
